@@ -174,6 +174,9 @@ func (vc *VC) typeFacts(st *State, v Term, t types.Type, depth int) []Term {
 	if depth > 3 {
 		return nil
 	}
+	if _, isTP := t.(*types.TypeParam); isTP {
+		return nil
+	}
 	switch u := t.Underlying().(type) {
 	case *types.Basic:
 		if ii, ok := intInfo(u); ok && vc.mode == "int" && u.Info()&types.IsUntyped == 0 {
